@@ -226,7 +226,11 @@ class DelimSource(Source[Iterable[str]]):
         delim       = self._delim
 
         if split_lines:
+            after_cr = False
             for text in filter(None,self._source.read()):
+                if after_cr and text[0] == '\n': text = text[1:] #a \r\n was split across two texts
+                after_cr = text[-1:] == '\r'
+                if not text: continue
                 lines = text.splitlines()
                 if pending:
                     lines[0] = pending + lines[0]
